@@ -2030,6 +2030,10 @@ def removeslash(
             if self.request.method in ("GET", "HEAD"):
                 uri = self.request.path.rstrip("/")
                 if uri:  # don't try to redirect '/' to ''
+                    if uri.startswith("//"):
+                        # A Location with two initial slashes is a
+                        # "protocol-relative" URL (an open redirect).
+                        uri = "/" + uri.lstrip("/")
                     if self.request.query:
                         uri += "?" + self.request.query
                     self.redirect(uri, permanent=True)
@@ -2058,6 +2062,10 @@ def addslash(
         if not self.request.path.endswith("/"):
             if self.request.method in ("GET", "HEAD"):
                 uri = self.request.path + "/"
+                if uri.startswith("//"):
+                    # A Location with two initial slashes is a
+                    # "protocol-relative" URL (an open redirect).
+                    uri = "/" + uri.lstrip("/")
                 if self.request.query:
                     uri += "?" + self.request.query
                 self.redirect(uri, permanent=True)
